@@ -120,17 +120,6 @@ theorem decOptMember_none {α} (dec : Json → Dec (Option α)) {r : Option (Opt
     (h : decOptMember dec none = .ok r) : r = none := by
   simp only [decOptMember, Dec.ok.injEq] at h; exact h.symm
 
-theorem Dec.bind_congr {α β} {x : Dec α} {f g : α → Dec β} (h : ∀ a, x = .ok a → f a = g a) : (x >>= f) = (x >>= g) := by
-  cases x with
-  | ok a => simp only [Dec.bind_ok]; exact h a rfl
-  | err e => rfl
-
-theorem Res.bind_congr {α β} {x : Res α} {f g : α → Res β} (h : ∀ a, x = .ok a → f a = g a) : (x >>= f) = (x >>= g) := by
-  cases x with
-  | ok a => simp only [Res.bind_ok]; exact h a rfl
-  | err e => rfl
-  | panic e => rfl
-
 theorem decFeeInfo_indep (π₁ π₂ : OneofOrder) (j : Json) (hj : ambiguous j = false) : decFeeInfo π₁ j = decFeeInfo π₂ j := by
   unfold decFeeInfo
   apply Dec.bind_congr
